@@ -788,14 +788,205 @@ Proof. intros H. unfold user_swap_core. cbv zeta. fz. Qed.
 Lemma frozen_uua_core' k X s0 st n new : frozen k X s0 st -> frozen k X s0 (rstate (user_update_attrs_core st n new)).
 Proof. intros H. unfold user_update_attrs_core. fz. Qed.
 
-(* ---- one call of the public API (paint strokes: flags only, see the report) ---- *)
+(* ---- a paint stroke: UserUpdateSegmentation and its rollback ---- *)
+Definition bn_in (X : Z -> Prop) (b : basic) : Prop := forall m, basic_nodes b m -> X m.
+Definition an_in (X : Z -> Prop) (l : list action) : Prop := forall m, actions_nodes l m -> X m.
+Lemma actions_nodes_app l1 l2 m : actions_nodes (l1 ++ l2) m <-> actions_nodes l1 m \/ actions_nodes l2 m.
+Proof. induction l1 as [|x r IH]; cbn [app actions_nodes]; [tauto|]. rewrite IH. tauto. Qed.
+Lemma an_in_nil X : an_in X [].
+Proof. intros m []. Qed.
+Lemma an_in_snoc (X : Z -> Prop) l x : an_in X l -> (forall m, action_nodes x m -> X m) -> an_in X (l ++ [x]).
+Proof. intros H1 H2 m Hm. apply actions_nodes_app in Hm. cbn in Hm. destruct Hm as [Hm|[Hm|[]]]; auto. Qed.
+Lemma an_in_snoc_basic (X : Z -> Prop) l b : an_in X l -> bn_in X b -> an_in X (l ++ [ABasic b]).
+Proof. intros H1 H2. apply an_in_snoc; [exact H1|exact H2]. Qed.
+Lemma an_in_rev (X : Z -> Prop) l : an_in X l -> an_in X (rev l).
+Proof.
+  induction l as [|x r IH]; cbn [rev]; [auto|]. intros H. apply an_in_snoc.
+  - apply IH. intros m Hm. apply H. now right.
+  - intros m Hm. apply H. now left.
+Qed.
+
+Lemma upd_track_out X st s t l b st' : do_upd_track st s t l = Ok b st' -> bn_in X b.
+Proof.
+  unfold do_upd_track. destruct (negb (has_node st s)); [discriminate|]. destruct (zattr st s KTrack); [|discriminate].
+  destruct (negb (trk_act (ft st))); [intros H; injection H as <- _; intros m []|].
+  destruct (walk _ _ _ _ _ _ _ _ _) as [[[st1 tn] ln]|]; [|discriminate].
+  destruct (match (if lin_act (ft st) then l else None) with Some _ => _ | None => _ end). intros H; injection H as <- _; intros m [].
+Qed.
+Lemma del_edge_out X st u v b st' : do_del_edge st u v = Ok b st' -> bn_in X b.
+Proof. unfold do_del_edge. destruct (negb (has_edge st u v)); [discriminate|]. intros H; injection H as <- _; intros m []. Qed.
+Lemma add_edge_out X st u v a b st' : do_add_edge st u v a = Ok b st' -> bn_in X b.
+Proof.
+  unfold do_add_edge. destruct (negb (has_node st u)); [discriminate|]. destruct (negb (has_node st v)); [discriminate|].
+  intros H; injection H as <- _; intros m [].
+Qed.
+Lemma del_node_out (X : Z -> Prop) st n pxo b st' : do_del_node st n pxo = Ok b st' -> X n -> bn_in X b.
+Proof.
+  unfold do_del_node. destruct (lookup n (nodes (g st))); [|discriminate].
+  destruct (match (match pxo with Some p => Some p | None => get_pixels st n end) with Some p => set_pixels st p 0 | None => Ok tt st end) as [[] st1|]; [|discriminate].
+  cbn [bind ft upd_g]. intros H Hx.
+  destruct (negb (trk_act (ft st1))); injection H as <- _; intros m Hm; cbn in Hm; now subst.
+Qed.
+Lemma upd_seg_out X st n p added b st' : do_upd_seg st n p added = Ok b st' -> bn_in X b.
+Proof.
+  unfold do_upd_seg. destruct (set_pixels _ _ _) as [[] st1|]; [|discriminate]. cbn [bind].
+  destruct (negb (has_node st1 n) && _); [discriminate|]. destruct (negb (has_node st1 n) && _); [discriminate|].
+  intros H. injection H as <- _. intros m [].
+Qed.
+
+Lemma udn_preds_out X n ps : forall s acc acts s', udn_preds n ps s acc = Ok acts s' -> an_in X acc -> an_in X acts.
+Proof.
+  induction ps as [|p r IH]; intros s acc acts s' H Hacc; cbn [udn_preds] in H; [injection H as <- _; exact Hacc|].
+  ok_step H acc1 s1 H1. ok_step H b s2 H2. eapply IH; [exact H|]. apply an_in_snoc_basic; [|eapply del_edge_out; eauto].
+  destruct (length (successors s p) =? 2)%nat; [|injection H1 as <- _; exact Hacc].
+  destruct (remove1 n (successors s p)); [discriminate|]. destruct (zattr s p KTrack); [|discriminate].
+  ok_step H1 b0 s0 H0. injection H1 as <- _. apply an_in_snoc_basic; [exact Hacc|eapply upd_track_out; eauto].
+Qed.
+Lemma udn_succs_out X n cs : forall s acc acts s', udn_succs n cs s acc = Ok acts s' -> an_in X acc -> an_in X acts.
+Proof.
+  induction cs as [|c r IH]; intros s acc acts s' H Hacc; cbn [udn_succs] in H; [injection H as <- _; exact Hacc|].
+  ok_step H b s1 H1. eapply IH; [exact H|]. apply an_in_snoc_basic; [exact Hacc|eapply del_edge_out; eauto].
+Qed.
+Lemma udn_orphans_out X os : forall s acc acts s', udn_orphans os s acc = Ok acts s' -> an_in X acc -> an_in X acts.
+Proof.
+  induction os as [|o r IH]; intros s acc acts s' H Hacc; cbn [udn_orphans] in H; [injection H as <- _; exact Hacc|].
+  destruct (zattr s o KTrack); [|discriminate]. ok_step H b s1 H1. eapply IH; [exact H|].
+  apply an_in_snoc_basic; [exact Hacc|eapply upd_track_out; eauto].
+Qed.
+
+Lemma udn_core_out (X : Z -> Prop) st n pxo a s' : user_delete_node_core st n pxo = Ok a s' -> X n ->
+  forall m, action_nodes a m -> X m.
+Proof.
+  unfold user_delete_node_core. intros H Hx. destruct (negb (has_node st n)); [discriminate|].
+  ok_step H acts1 s1 H1. apply (udn_preds_out X) in H1; [|apply an_in_nil].
+  ok_step H acts2 s2 H2. apply (udn_succs_out X) in H2; [|exact H1].
+  ok_step H ao s3 H3. destruct ao as [acts3 orphans].
+  assert (A3 : an_in X acts3).
+  { destruct (zattr s2 n KTrack) as [T|]; [|discriminate]. destruct (track_neighbors s2 T (time_of s2 n)) as [s2' [pp cc]].
+    destruct pp as [pp|]; [destruct cc as [cc|]|].
+    - ok_step H3 b0 s4 H4. injection H3 as <- _ _. apply an_in_snoc_basic; [exact H2|eapply add_edge_out; eauto].
+    - injection H3 as <- _ _. exact H2.
+    - injection H3 as <- _ _. exact H2. }
+  ok_step H acts4 s4 H4. apply (udn_orphans_out X) in H4; [|exact A3].
+  ok_step H b s5 H5. injection H as <- _. intros m. rewrite action_nodes_group.
+  apply (an_in_snoc_basic X acts4 b H4). eapply del_node_out; eauto.
+Qed.
+
+Lemma uus_groups_out (X : Z -> Prop) gs : forall s acc acts s', uus_groups gs s acc = Ok acts s' ->
+  (forall g, In g gs -> snd g <> 0 -> X (snd g)) -> an_in X acc -> an_in X acts.
+Proof.
+  induction gs as [|[px old] r IH]; intros s acc acts s' H Hg Hacc; cbn [uus_groups] in H; [injection H as <- _; exact Hacc|].
+  assert (Hr : forall g, In g r -> snd g <> 0 -> X (snd g)) by (intros g Hin; apply Hg; now right).
+  destruct (Z.eqb_spec old 0) as [->|Hold]; [eapply IH; eauto|].
+  assert (Hx : X old) by (apply (Hg (px, old)); [now left|exact Hold]).
+  destruct (match seg s with Some sg0 => mask_of sg0 (fst px) old | None => [] end).
+  - ok_step H a s1 H1. unfold user_delete_node in H1. apply top_wrap_false_ok in H1.
+    eapply IH; [exact H|exact Hr|]. apply an_in_snoc; [exact Hacc|eapply udn_core_out; eauto].
+  - ok_step H b s1 H1. eapply IH; [exact H|exact Hr|]. apply an_in_snoc_basic; [exact Hacc|eapply upd_seg_out; eauto].
+Qed.
+
+Lemma frozen_uus_groups' k (X : Z -> Prop) gs : (forall g, In g gs -> snd g <> 0 -> X (snd g)) ->
+  forall s0 s acc, frozen k X s0 s -> frozen k X s0 (rstate (uus_groups gs s acc)).
+Proof.
+  induction gs as [|[px old] r IH]; intros Hg s0 s acc H; cbn [uus_groups]; [exact H|].
+  assert (Hr : forall g, In g r -> snd g <> 0 -> X (snd g)) by (intros g Hin; apply Hg; now right).
+  destruct (Z.eqb_spec old 0) as [->|Hold]; [now apply IH|].
+  assert (Hx : X old) by (apply (Hg (px, old)); [now left|exact Hold]).
+  destruct (match seg s with Some sg0 => mask_of sg0 (fst px) old | None => [] end).
+  - apply frozen_bind'; [now apply frozen_udn'|]. intros a s1 H1. now apply IH.
+  - apply frozen_bind'; [now apply frozen_upd_seg'|]. intros b s1 H1. now apply IH.
+Qed.
+
+Lemma frozen_rollback' k (X : Z -> Prop) l : an_in X l ->
+  forall s0 s, frozen k X s0 s -> frozen k X s0 (rstate (rollback l s)).
+Proof.
+  induction l as [|x r IH]; intros Hl s0 s H; cbn [rollback]; [exact H|].
+  apply frozen_bind'.
+  - apply frozen_inv_action'; [intros n Hn; apply Hl; now left|exact H].
+  - intros _i s1 H1. apply IH; [intros n Hn; apply Hl; now right|exact H1].
+Qed.
+
+Lemma frozen_uus_core k (X : Z -> Prop) st nv groups T force :
+  (forall n, X n \/ ~ X n) ->
+  (forall g, In g groups -> snd g <> 0 -> X (snd g)) -> (has_node st nv = false -> X nv) ->
+  frozen k X st (rstate (user_update_seg_core st nv groups T force)).
+Proof.
+  intros Xdec Hg Hnv. unfold user_update_seg_core. destruct (seg st) eqn:Hs; [|apply frozen_refl].
+  destruct (negb (nv =? 0) && _ && has_node st nv && _); [apply frozen_refl|].
+  pose proof (frozen_uus_groups' k X groups Hg st st [] (frozen_refl _ _ _)) as Hfz.
+  destruct (uus_groups groups st []) as [acts s1|e s1] eqn:Hu; cbn [bind rstate] in Hfz |- *; [|exact Hfz].
+  apply (uus_groups_out X) in Hu; [|exact Hg|apply an_in_nil].
+  destruct groups as [|[px0 old0] gr] eqn:Eg; [exact Hfz|].
+  destruct (nv =? 0); [exact Hfz|]. cbv zeta.
+  destruct (has_node s1 nv) eqn:Hh.
+  - apply frozen_bind'; [now apply frozen_upd_seg'|]. intros b s2 H2. exact H2.
+  - intros D.
+    assert (Xnv : X nv).
+    { destruct (Xdec nv) as [Hx|Hx]; [exact Hx|]. apply Hnv. destruct (Hfz D) as (_ & A & _).
+      rewrite <- (A nv Hx). exact Hh. }
+    revert D. change (frozen k X st (rstate (
+      match user_add_node s1 nv [(KTime, VZ (fst px0)); (KTrack, VZ T)] (Some (fst px0, flat_map (fun g0 => snd (fst g0)) ((px0, old0) :: gr))) force false with
+      | Ok x s => Ok (AGroup (acts ++ [x]), Some nv) s
+      | Err (EInvalid f) s => match rollback (rev acts) s with Ok _ s' => Err (EInvalid f) s' | Err e s' => Err e s' end
+      | Err e s => Err e s end))).
+    pose proof (frozen_uan' k X st s1 nv [(KTime, VZ (fst px0)); (KTrack, VZ T)] (Some (fst px0, flat_map (fun g0 => snd (fst g0)) ((px0, old0) :: gr))) force false Xnv Hfz) as Hadd.
+    destruct (user_add_node s1 nv _ _ force false) as [x s2|e s2]; cbn [rstate] in Hadd |- *; [exact Hadd|].
+    destruct e; try exact Hadd.
+    pose proof (frozen_rollback' k X (rev acts) (an_in_rev X _ Hu) st s2 Hadd) as Hrb.
+    destruct (rollback (rev acts) s2); cbn [rstate] in *; exact Hrb.
+Qed.
+
+Definition paint_nodes (st : state) (nv t : Z) (idx : list Z) (n : Z) : Prop :=
+  (n = nv /\ has_node st nv = false) \/
+  match seg st with Some sg => In n (map snd (paint_groups sg t idx nv)) | None => False end.
+
+Lemma paint_nodes_dec st nv t idx n : paint_nodes st nv t idx n \/ ~ paint_nodes st nv t idx n.
+Proof.
+  unfold paint_nodes. destruct (Z.eq_dec n nv) as [->|Hn].
+  - destruct (has_node st nv); [|left; left; auto].
+    destruct (seg st) as [sg|]; [|right; intros [[_ H]|[]]; discriminate H].
+    destruct (in_dec Z.eq_dec nv (map snd (paint_groups sg t idx nv))) as [Hi|Hi]; [left; now right|].
+    right. intros [[_ H]|H]; [discriminate H|contradiction].
+  - destruct (seg st) as [sg|]; [|right; intros [[H _]|[]]; contradiction].
+    destruct (in_dec Z.eq_dec n (map snd (paint_groups sg t idx nv))) as [Hi|Hi]; [left; now right|].
+    right. intros [[H _]|H]; contradiction.
+Qed.
+
+Lemma frozen_user_update_seg k (X : Z -> Prop) st nv groups T force :
+  (forall n, X n \/ ~ X n) ->
+  (forall g, In g groups -> snd g <> 0 -> X (snd g)) -> (has_node st nv = false -> X nv) ->
+  frozen k X st (rstate (user_update_seg st nv groups T force)).
+Proof.
+  intros Xdec Hg Hnv. unfold user_update_seg. pose proof (frozen_uus_core k X st nv groups T force Xdec Hg Hnv) as H.
+  destruct (user_update_seg_core st nv groups T force) as [[a p] s|e s]; cbn [rstate] in *; [|exact H].
+  now apply frozen_finish_top.
+Qed.
+
+Theorem frozen_paint k st nv t idx T force :
+  frozen k (paint_nodes st nv t idx) st (rstate (paint st nv t idx T force)).
+Proof.
+  unfold paint. destruct (seg st) as [sg|] eqn:Hs.
+  - destruct (negb (frame_ok sg t)); [apply frozen_refl|]. cbv zeta.
+    set (painted := upd_seg st _). set (gs := paint_groups sg t idx nv).
+    assert (Hp : frozen k (paint_nodes st nv t idx) st painted) by (intros _; apply frz_nodes; reflexivity).
+    assert (Hu : frozen k (paint_nodes st nv t idx) painted (rstate (user_update_seg painted nv gs T force))).
+    { apply frozen_user_update_seg; [apply paint_nodes_dec| |].
+      - intros g0 Hin _. right. rewrite Hs. now apply in_map.
+      - intros H. left. auto. }
+    pose proof (frozen_trans _ _ _ _ _ Hp Hu) as H.
+    destruct (user_update_seg painted nv gs T force) as [a s|e s]; cbn [rstate] in *; [exact H|].
+    destruct (seg s); [|exact H]. intros D. destruct (H D) as (A & B & C). repeat split; assumption.
+  - apply frozen_user_update_seg; [apply paint_nodes_dec|intros g0 []|]. intros H. left. auto.
+Qed.
+
+(* ---- one call of the public API ---- *)
 Definition op_nodes (st : state) (o : op) (n : Z) : Prop :=
   match o with
   | OAddNode m _ _ _ | ODelNode m => n = m
   | OUndo => match nth_error (undo_stack st) (length (undo_stack st) - length (redo_stack st) - 1) with
              | Some a => action_nodes a n | None => False end
   | ORedo => match rev (redo_stack st) with b :: _ => action_nodes b n | [] => False end
-  | OPaint _ _ _ _ _ => True
+  | OPaint nv t idx _ _ => paint_nodes st nv t idx n
   | _ => False
   end.
 
@@ -813,8 +1004,7 @@ Proof.
   - apply frozen_fin, frozen_udn'; [reflexivity|apply frozen_refl].
   - apply frozen_fin. unfold user_swap. apply frozen_top_wrap', frozen_swap_core', frozen_refl.
   - apply frozen_fin. unfold user_update_attrs. apply frozen_top_wrap', frozen_uua_core', frozen_refl.
-  - intros _. split; [|intros n Hn; exfalso; now apply Hn].
-    pose proof (paint_ft st new_value t idx T force) as H. destruct (paint _ _ _ _ _ _); exact H.
+  - apply frozen_fin, frozen_paint.
   - apply frozen_finb. unfold undo. cbv zeta. destruct (_ <=? _)%nat; [apply frozen_refl|].
     destruct (nth_error _ _) as [a|]; [|apply frozen_refl].
     apply frozen_bind'; [apply frozen_inv_action|]. intros b s H. cbn [rstate]. now apply frozen_emit, frozen_upd_hist.
@@ -1531,10 +1721,33 @@ Qed.
 
 Theorem frozen_step_attr st o k n : cfg_keys st -> In k (rp_all (ft st)) -> ~ In k (rp_act (ft st)) ->
   ~ op_nodes st o n ->
-  attr (fst (step st o)) n k = attr st n k /\ ~ In k (rp_act (ft (fst (step st o)))).
+  has_node (fst (step st o)) n = has_node st n /\ attr (fst (step st o)) n k = attr st n k /\
+  ~ In k (rp_act (ft (fst (step st o)))).
 Proof.
-  intros C H1 H2 Hn. destruct (frozen_step k st o (disabled_rp_intro st k C H1 H2)) as [F A].
-  split; [now apply A|now rewrite F].
+  intros C H1 H2 Hn. destruct (frozen_step k st o (disabled_rp_intro st k C H1 H2)) as (F & A & B).
+  split; [now apply A|]. split; [now apply B|now rewrite F].
+Qed.
+
+Theorem frozen_paint_cfg k st nv t idx T force :
+  cfg_keys st -> In k (rp_all (ft st)) -> ~ In k (rp_act (ft st)) ->
+  frz k (paint_nodes st nv t idx) st (rstate (paint st nv t idx T force)).
+Proof. intros C H1 H2. apply frozen_paint. now apply disabled_rp_intro. Qed.
+
+(* a whole history of edits: the value survives as long as the node is not added / deleted on the way *)
+Theorem frozen_run k n : forall ops st, cfg_keys st -> In k (rp_all (ft st)) -> ~ In k (rp_act (ft st)) ->
+  (forall pre o post, ops = pre ++ o :: post -> ~ op_nodes (run st pre) o n) ->
+  has_node (run st ops) n = has_node st n /\ attr (run st ops) n k = attr st n k.
+Proof.
+  induction ops as [|o r IH]; intros st C H1 H2 Hx; [split; reflexivity|].
+  change (run st (o :: r)) with (run (fst (step st o)) r).
+  destruct (frozen_step_attr st o k n C H1 H2 (Hx [] o r eq_refl)) as (A & B & D).
+  pose proof (step_ft st o) as F.
+  destruct (IH (fst (step st o))) as [I1 I2].
+  - eapply cfg_keys_ft; [exact F|exact C].
+  - now rewrite F.
+  - exact D.
+  - intros pre o' post E. apply (Hx (o :: pre) o' post). now rewrite E.
+  - split; congruence.
 Qed.
 
 Theorem iou_frozen_summary st : iou_act (ft st) = false ->
